@@ -14,7 +14,7 @@ use crate::world::TxOut;
 pub struct C03;
 
 /// parse "12uom,34uusdt" in the pool's asset order
-fn parse_reserves(s: &str, pool: &PoolInfo) -> Option<Vec<u128>> {
+pub fn parse_reserves(s: &str, pool: &PoolInfo) -> Option<Vec<u128>> {
     let parts: Vec<(u128, String)> = s.split(',').filter_map(parse_coin).collect();
     if parts.len() != pool.assets.len() {
         return None;
